@@ -30,7 +30,11 @@ text = f"""### 9.4 Detection record
 sub-agent that was given only the property text and its own scratch worktree (nothing from /verif), and was confirmed
 by the coordinator in another scratch worktree (`seedverify.sh`: patch applies to HEAD, the demonstration fails with it
 and passes without it, the touched packages' own tests still pass) before the property's check was run against
-/repo + patch (`seedrun.sh`, through the build overlay; /repo untouched).
+/repo + patch (`seedrun.sh`, through the build overlay; /repo untouched). Two rounds: one change per property
+(`<id>`), then a second, different change for 24 properties (`<id>-2`; the sub-agents were told what the first
+round had used). "Missed ..." rows are changes that the check as built at that time did not report; the check was
+then strengthened (never the other way round) and the change re-verified. Two second-round changes (C03-2, C07-2:
+foreign-key cascades) are reported by C08, not by the property's own concurrent harness.
 
 | seeded | property | change | needs | caught by |
 |---|---|---|---|---|
